@@ -273,6 +273,73 @@ fn run_op(tx: &mut Transaction, op: &Value) -> Value {
                 Err(e) => json!({ "err": e.to_string() }),
             }
         }
+        "hash" => {
+            let data = hx(&op["input"]);
+            let key = op.get("key").map(|k| hx(k)).unwrap_or_default();
+            let h = match op["fn"].as_str().unwrap() {
+                "sha_256" => Hash::sha_256(&data),
+                "sha_1" => Hash::sha_1(&data),
+                "sha_512" => Hash::sha_512(&data),
+                "ripemd_160" => Hash::ripemd_160(&data),
+                "sha_256d" => Hash::sha_256d(&data),
+                "hash_160" => Hash::hash_160(&data),
+                "sha_512_hmac" => Hash::sha_512_hmac(&data, &key),
+                "sha_256_hmac" => Hash::sha_256_hmac(&data, &key),
+                "sha_256d_hmac" => Hash::sha_256d_hmac(&data, &key),
+                "sha_1_hmac" => Hash::sha_1_hmac(&data, &key),
+                "ripemd_160_hmac" => Hash::ripemd_160_hmac(&data, &key),
+                _ => Hash::hash_160_hmac(&data, &key),
+            };
+            json!({ "ok": hex::encode(h.to_bytes()) })
+        }
+        "pbkdf2" => {
+            let algo = match op["algo"].as_str().unwrap() {
+                "SHA1" => PBKDF2Hashes::SHA1,
+                "SHA256" => PBKDF2Hashes::SHA256,
+                _ => PBKDF2Hashes::SHA512,
+            };
+            let k = KDF::pbkdf2(&hx(&op["password"]), Some(hx(&op["salt"])), algo, op["rounds"].as_u64().unwrap() as u32, op["len"].as_u64().unwrap() as usize);
+            json!({ "ok": hex::encode(k.get_hash().to_bytes()) })
+        }
+        "adapter" => {
+            use digest::{FixedOutput, Update};
+            fn drive<D: FixedOutput + Update + Clone + Default + ReversibleDigest>(op: &Value) -> Value {
+                let mut d = D::default();
+                if op["reverse"].as_bool().unwrap_or(false) {
+                    d = d.reverse();
+                }
+                for c in op["chunks"].as_array().unwrap() {
+                    d.update(hx(c));
+                }
+                let fin = op["finalizer"].as_str().unwrap();
+                let first = match fin {
+                    "finalize_fixed" | "finalize_into_dirty" => d.clone().finalize_fixed().to_vec(),
+                    "finalize_into" => {
+                        let mut out = Default::default();
+                        d.clone().finalize_into(&mut out);
+                        out.to_vec()
+                    }
+                    "finalize_fixed_reset" => d.finalize_fixed_reset().to_vec(),
+                    _ => {
+                        let mut out = Default::default();
+                        d.finalize_into_reset(&mut out);
+                        out.to_vec()
+                    }
+                };
+                let second = if fin.ends_with("_reset") {
+                    d.update(hx(&op["after_reset"]));
+                    Some(hex::encode(d.finalize_fixed()))
+                } else {
+                    None
+                };
+                json!({"ok": {"first": hex::encode(first), "second": second}})
+            }
+            match op["adapter"].as_str().unwrap() {
+                "Sha256d" => drive::<bsv::hash::sha256d_digest::Sha256d>(op),
+                "Sha256r" => drive::<Sha256r>(op),
+                _ => drive::<bsv::hash::hash160_digest::Hash160>(op),
+            }
+        }
         "der_roundtrip" => match Signature::from_der(&hx(&op["bytes"])) {
             Ok(sig) => json!({ "ok": hex::encode(sig.to_der_bytes()) }),
             Err(e) => json!({ "err": e.to_string() }),
